@@ -586,8 +586,11 @@ fn known_class(sc: &Scenario) -> &'static str {
 }
 
 fn oracle(sc: &Scenario, r: &RunOut) -> Result<(), String> {
-    // pool
-    if r.peak > sc.limit {
+    // pool. The accept-time peak is only meaningful when no connection is closed during the run
+    // (concurrent scenarios: keep-alive scripts only): the server notices a client's FIN a few
+    // milliseconds late, so in sequential scenarios "closed, then opened another" would be
+    // counted as an overlap. There the settled count after every request is exact.
+    if sc.conc && r.peak > sc.limit {
         return Err(format!("{} sockets open at once with limit {}", r.peak, sc.limit));
     }
     for (i, o) in r.open_after.iter().enumerate() {
